@@ -18,6 +18,7 @@ RULE = ("one run = one generated DSL program containing `var += amount` / `var -
         "uniform); distinct = distinct (program bytes, schedule) pairs; non-trivial = the "
         "instances' instructions actually interleaved")
 RULE += "; since the 4th session also a constant amount that is 0 in one of two branches taken per packet value, and a Dict entry increased by the Dict's own staging copy in one statement"
+RULE += '; also the generating process pinned to one CPU and amounts that read their own target'
 COMPONENTS = {
     "real": ["ebpfcat.ebpf.Memory.__iadd__/__isub__/IAdd/Memory._set (byte code from "
              "EBPF.assemble)", "ArrayMap/PerCPUArrayMap/Dict/LocalVar/SubProgram declarations"],
